@@ -35,6 +35,15 @@ def simpleKind : Op → Bool
   | .create _ | .write _ | .chmod _ | .unlink _ => true
   | _ => false
 
+/-- a file operation: a simple one, or the rename / move / replacement of a file -/
+def fileKind (fs : FS) : Op → Bool
+  | .rename p _ => fs.isFile p
+  | op => simpleKind op
+
+/-- executable twin of the hypothesis of `burst_files` -/
+def allFileB (s : Sys) (ops : List Op) : Bool :=
+  (ops.foldl (fun (acc : FS × Bool) op => ((kernelOp acc.1 s.k op).1, acc.2 && validOp acc.1 op && fileKind acc.1 op)) (s.fs, true)).2
+
 /-- every operation of the burst is valid when it is issued and of a simple kind (executable twin of the hypothesis of
     `burst_simple`; the validity of an operation only depends on the file system, which only the kernel side changes) -/
 def allSimpleB (s : Sys) (ops : List Op) : Bool :=
